@@ -9,6 +9,10 @@
     specs/openapi/references.py : InliningResolver.resolve / resolve_all (entry level, RECURSION_DEPTH_LIMIT)
     specs/openapi/security.py   : BaseSecurityProcessor.process_definitions (Open API 3 processor)
     schemas.py                  : APIOperation.add_parameter / get_parameter, ParameterSet.get
+  Shape: `iterate`/`iterEvents` = get_all_operations (complete / step by step); `byPM` = `getMap` (_get_operation_map)
+  then `initOp` (MethodMap._init_operation); `byId` = first-level hit, `ensureDefs` (_populate_operation_id_cache),
+  `idLookup`; `byRef` = get_operation_by_reference; `step`/`run` = the access machine over `St` (cache, scope pushed
+  by a suspended generator, what that generator will still yield). One `Variant` flag per defect site (`Cfg`).
   Abstractions (validated by the correspondence run, see harness/corr/c08.py):
     * a document is the list of path entries of the root file plus, per file, the tables of referencable
       parameter entries and path items; `urljoin` + file loading is the finite table `links`
